@@ -14,6 +14,8 @@ R = "reactivex/subject/replaysubject.py"
 
 
 def check(repo: Repo, rep: Report) -> None:
+    from .attr_roles import roles as _roles
+    WIN = _roles(repo, R, "ReplaySubject").by_param("window")      # the attribute holding the replay time window
     rep.explanation = (
         "ReplaySubject structure: in _subscribe_core, under one lock region and in this order — check_disposed, _trim(now), "
         "register the ScheduledObserver, replay `for item in self.queue` (front to back) through it, then the terminal "
@@ -148,14 +150,14 @@ def check(repo: Repo, rep: Report) -> None:
             ok = False
             for a in atoms_:
                 r = compare_norm(a, lambda e: "interval" in u(e) and "now" in u(e))
-                if r and r[0] == ">" and u(r[1]) == "self._window":
+                if r and r[0] == ">" and u(r[1]) == f"self.{WIN}":
                     ok = True
             nonempty = any(u(a) == "self.queue" for a in atoms_)
             rep.ob("RP3-trim-bounds", tr, f"while {txt}", ok and nonempty and len(pops) == 1,
                    "time trimming does not drop from the front exactly while the oldest value is older than the window "
                    "(a value whose age equals the window must be retained)")
     init = repo.fn(R, "ReplaySubject.__init__")
-    for fld, param in (("buffer_size", "buffer_size"), ("_window", "window")):
+    for fld, param in (("buffer_size", "buffer_size"), (WIN, "window")):
         ass = [s for s in sites(init) if isinstance(s.node, (ast.Assign, ast.AnnAssign)) and
                u(s.node.targets[0] if isinstance(s.node, ast.Assign) else s.node.target) == f"self.{fld}"]
         ok = False
